@@ -19,6 +19,9 @@ def cases(tier, seed):
                 r1 = rows[k]
                 r2 = rows[(k * 7 + 3) % len(rows)]
                 yield dict(single=False, skip_errors=skip, remove=remove, rows=[list(r1), list(r2)])
+                if k % 9 == 3:
+                    # the same index label on both rows (stacked batches, bootstrap samples): still one output row per input row, in order
+                    yield dict(single=False, skip_errors=skip, remove=remove, rows=[list(r1), list(r2)], same_label=True)
                 if k % 9 == 0:
                     # frames made of categorical columns only (no numeric column to carry the index along)
                     yield dict(single=False, skip_errors=skip, remove=remove, rows=[list(r1), list(r2)], no_numeric=True)
@@ -61,7 +64,7 @@ def check(c):
         return check_refit(c)
     cats = ["color", "shape", "size"]
     train = pandas.DataFrame({k: pandas.Series(v, dtype=object if k != "x" else float) for k, v in TRAIN.items()})
-    idx = [100 + i for i in range(len(c["rows"]))]
+    idx = [100 + (0 if c.get("same_label") else i) for i in range(len(c["rows"]))]
     test = pandas.DataFrame({"color": pandas.Series([r[0] for r in c["rows"]], dtype=object, index=idx), "x": pandas.Series([10.0 + i for i in range(len(c["rows"]))], index=idx),
                              "shape": pandas.Series([r[1] for r in c["rows"]], dtype=object, index=idx), "size": pandas.Series([r[2] for r in c["rows"]], dtype=object, index=idx)})
     if c.get("no_numeric"):
@@ -84,6 +87,8 @@ def check(c):
         return None if ((unseen or removed_hit) and not c["skip_errors"]) else dict(**{"class": "unexpected-error"}, what="ValueError although every category was seen or skip_errors=True")
     if unseen and not c["skip_errors"]:
         return dict(**{"class": "unseen-not-refused"}, what="unseen category accepted without skip_errors")
+    if len(out) != len(test):
+        return dict(**{"class": "passthrough"}, what="%d rows in, %d rows out" % (len(test), len(out)))
     if list(out.index) != list(test.index) or (not c.get("no_numeric") and not numpy.array_equal(out["x"].values, test0["x"].values)):
         return dict(**{"class": "passthrough"}, what="numeric column or index not kept (index %r, expected %r)" % (list(out.index), list(test.index)))
     if c["single"]:
